@@ -124,6 +124,26 @@ ROBUST = {
 }
 
 
+PER_OCCURRENCE = {
+    "C01": ["R01.5|subscript", "R01.P"],
+    "C02": ["R02.P"],
+    "C05": ["R05.P"],
+    "C06": ["R06.3|literal-set", "R06.P"],
+    "C07": ["R07.P"],
+    "C08": ["R08.2|bound-value", "R08.P"],
+    "C09": ["R09.5|constrained", "R09.5|unconstrained", "R09.1|literal-set", "R09.P"],
+    "C10": ["R10.4|late-binding"],
+    "C11": ["R11.P"],
+    "C12": ["R12.1|", "R12.P"],
+    "C13": ["R13.5|"],
+    "C14": ["R14.1|module-container", "R14.2|id-with-object"],
+    "C16": ["R16.4|store", "R16.P"],
+    "C18": ["R18.2|kw", "R18.3|forwards-domain", "R18.3|view-copies-all-slots"],
+    "C19": ["R19.4|origin", "R19.1|singular"],
+    "C20": ["R20.2|", "R20.4|publish-complete", "R20.5|handler"],
+}
+
+
 class Report:
     def __init__(self, prop: str, tier: str = "quick", seed: int = 0, quiet: bool = False):
         self.prop = prop
@@ -288,6 +308,11 @@ class Report:
                     k = self.count_class(o)
                     have[k] = have.get(k, 0) + 1
             for k, n in sorted(self._baseline_counts().items()):
+                # rules that quantify over every OCCURRENCE of a construct (every read of .value, every write of a
+                # process global, every call that forwards `strict`, ...): fewer occurrences is less code to check,
+                # not an unchecked clause -- only their complete disappearance is suspicious
+                if any(k.startswith(x) for x in PER_OCCURRENCE.get(self.prop, ())):
+                    n = min(n, 1)
                 if have.get(k, 0) < n:
                     self.undecided(f"{k.replace('|', ' [')}]: {have.get(k, 0)} instance(s) on this tree, {n} on the confirmed baseline -- the missing ones were not found (moved, merged or written in a form the rule does not read), so they were not checked")
         for rule, n in self.min_instances.items():
